@@ -98,28 +98,36 @@ def run(ctx, rep):
             break
     # --- predicates data
     R2 = rep.rule('C20.R2', 'extension = tuples with a true-containing value, anti-extension = tuples with a false-containing value, anti-extension iff many-valued')
-    for many in (True, False):
+    # one Meta mock per distinct profile of Meta facts among the logics (value names, designated values, the many_valued flag as the
+    # folded metaclass leaves it): whatever fact the export branches on, the anti-extension is published iff there are more than two values
+    profiles = {}
+    for lg in ctx.lgs:
+        vnames = tuple(n for n, _ in lg.values)
+        profiles.setdefault((vnames, tuple(sorted(lg.designated)), bool(lg.many_valued), lg.unassigned), lg.name)
+    for (vnames, desig, mv, unass), lgname in sorted(profiles.items()):
+        many = len(vnames) > 2
         hv = []
         interp = Obj('interp', having=lambda *vals: (hv.append(vals), [('b',), ('a',)])[1])
-        fr = Obj('frame', __srcclass__=(m, ClassRef(MODELS, 'BaseModel.Frame')), predicates={'G': interp, 'F': interp}, model=Obj('model', Meta=Obj('Meta', many_valued=many)))
+        meta = Obj('Meta', many_valued=mv, values=vnames, designated_values=frozenset(desig), unassigned_value=unass, name=lgname)
+        fr = Obj('frame', __srcclass__=(m, ClassRef(MODELS, 'BaseModel.Frame')), predicates={'G': interp, 'F': interp}, model=Obj('model', Meta=meta))
         fr._get_predicate_data_part = lambda pred, tuples: it.call(f('BaseModel.Frame._get_predicate_data_part'), [fr, pred, tuples])
         out = it.generate(f('BaseModel.Frame._get_predicate_data_values'), [fr, 'F'])
         want_calls = [('T', 'B'), ('B', 'F')] if many else [('T', 'B')]
         syms = [d.get('symbol') for d in out]
         outs = [d.get('values') for d in out]
         ok = hv == want_calls and syms == (['P+', 'P-'] if many else ['P']) and all(o == [dict(input='F', output=[('a',), ('b',)])] for o in outs)
-        rep.instance(R2, ok=ok, nontrivial=('predicate-data', many))
+        rep.instance(R2, ok=ok, nontrivial=('predicate-data', lgname))
         if not ok:
-            rep.finding(R2, f'C20.R2/_get_predicate_data_values/many_valued={many}', m.loc(MODELS, f('BaseModel.Frame._get_predicate_data_values')), 'Frame._get_predicate_data_values',
-                        f'having() called with {hv} (expected {want_calls}), symbols {syms}, outputs {outs}: extension/anti-extension are not the T/B and B/F tuples, sorted')
+            rep.finding(R2, f'C20.R2/_get_predicate_data_values/{lgname}', m.loc(MODELS, f('BaseModel.Frame._get_predicate_data_values')), 'Frame._get_predicate_data_values',
+                        f'Meta facts of {lgname} (values {vnames}, designated {desig}): having() called with {hv} (expected {want_calls}), symbols {syms}, outputs {outs}: extension/anti-extension are not the T/B and B/F tuples, sorted')
         fr._get_predicate_data_values = lambda pred: it.generate(f('BaseModel.Frame._get_predicate_data_values'), [fr, pred])
         hv.clear()
         r = it.safe(f('BaseModel.Frame._get_predicates_data'), [fr])
         preds = [d['values'][0]['input'] for d in r.get('values', [])] if isinstance(r, dict) else None
         ok = preds == (['F', 'F', 'G', 'G'] if many else ['F', 'G'])
-        rep.instance(R3, ok=ok, nontrivial=('predicates-sorted', many))
+        rep.instance(R3, ok=ok, nontrivial=('predicates-sorted', lgname))
         if not ok:
-            rep.finding(R3, f'C20.R3/_get_predicates_data/many_valued={many}', m.loc(MODELS, f('BaseModel.Frame._get_predicates_data')), 'Frame._get_predicates_data', f'predicates exported as {preds}, not sorted / not every predicate')
+            rep.finding(R3, f'C20.R3/_get_predicates_data/{lgname}', m.loc(MODELS, f('BaseModel.Frame._get_predicates_data')), 'Frame._get_predicates_data', f'predicates exported as {preds}, not sorted / not every predicate')
     # --- having: one interpreter for all value families, one after the other and each twice, as in one process -- members of
     # different value enums are different objects even when their names agree, so a result (or a cache) from one family must not
     # leak into another
